@@ -6,3 +6,4 @@ open Neutrino.Disp
 #print axioms C12_batch_numbers
 #print axioms C12_rank
 #print axioms C12_reissue
+#print axioms C12_success_all_partial
